@@ -239,6 +239,11 @@ def run(c, chk):
     # ---- R18.6 ---------------------------------------------------------------------------------
     user_object_released(c, chk, ex)
 
+    # ---- R18.9: unwinding after a failed allocation releases what the function owns, not what it borrows -------
+    from . import c08 as _c08
+    chk.rule('R18.9', 'no unwind path releases a context together with the search path it only borrows from the root (the failed call would leave the root with a freed list)')
+    c07.searchpath_rule(c, _c08.chk_proxy(chk, {'R7.3': 'R18.9'}), sym.Explorer(c.modules, max_visits=2, mod_sets=c.mod_sets, max_paths=200000))
+
     # ---- R18.8: an include that fails for want of memory unwinds like any other refused include ----------
     from . import c08 as _c08
     chk.rule('R18.8', 'every failing exit of the include function (allocation failures included) has closed the file, released the name and left the include stack as deep as it found it')
